@@ -149,13 +149,13 @@ Lemma only_move_when_rejecting cf s c r l s' : reach cf s -> nth_error (conns s)
   | PIPOver => l = LRejectIP c
   | PConcOver => l = LAcquireFail c
   | PNoWorker => l = LRejectDec c
-  | PRejecting => l = LRejectConc c
+  | PRejecting => exists e, l = LRejectConc c e
   | _ => True
   end.
 Proof.
   intros R Hn Hl Hs. pose proof (inv_reach _ _ R) as I. pose proof (Forall_nth _ _ _ _ (i_wf _ _ I) Hn) as Hwf.
   unfold wf_conn in Hwf. destruct l; cbn in Hl; try discriminate; injection Hl as ->; cbn [step] in Hs; rewrite Hn in Hs;
-  destruct r as [v ip0 rg cl p h rs]; cbn [ph cvia hj] in *; destruct p; try exact Logic.I; try reflexivity; try discriminate Hs;
+  destruct r as [v ip0 rg cl p h rs]; cbn [ph cvia hj] in *; destruct p; try exact Logic.I; try reflexivity; try (eexists; reflexivity); try discriminate Hs;
   try (destruct v; discriminate Hs); destruct Hwf as (_ & Hw); intuition (subst; try discriminate).
 Qed.
 
@@ -168,14 +168,14 @@ Qed.
 
 (* Concurrency through ServeConn *)
 Lemma reject_conc_serveconn cf s c r : reach cf s -> nth_error (conns s) c = Some r -> ph r = PChecked -> cvia r = VConn ->
-  effConc cf <= concurrency s ->
+  effConc cf <= concurrency s -> forall e,
   exists s1 s2 s3 r3, step cf s (LTryAcquire c) = Some s1 /\ step cf s1 (LAcquireFail c) = Some s2 /\
-    step cf s2 (LRejectConc c) = Some s3 /\
+    step cf s2 (LRejectConc c e) = Some s3 /\
     nth_error (conns s3) c = Some r3 /\ rejected_with StatusServiceUnavailable r3 /\
     concurrency s3 = concurrency s /\ open s3 = open s /\
     (forall ip, perip s3 ip = if reg r && N.eqb ip (cip r) then norm (sumf (w_ip ip) (conns s) - 1) else perip s ip).
 Proof.
-  intros R Hn Hp Hv Hover. pose proof (inv_reach _ _ R) as I.
+  intros R Hn Hp Hv Hover e. pose proof (inv_reach _ _ R) as I.
   destruct r as [v ip0 rg cl p h rs]. cbn in Hp, Hv. subst p v.
   cbn [step]. rewrite Hn. cbn [ph cip cvia closed hj resp reg].
   assert (E : (concurrency s + 1 <=? effConc cf) = false) by lia. rewrite E.
@@ -183,7 +183,7 @@ Proof.
   - eexists _, _, _, _. split; [reflexivity|]. cbn [step conns]. unfold set_ph. rewrite (nth_error_upd_same _ _ _ _ Hn). cbn [ph cip cvia hj reg closed resp].
     split; [reflexivity|]. cbn [step conns concurrency open perip loops serving].
     rewrite (nth_error_upd_same _ c _ (mkC VConn ip0 true cl PConcOver h rs)) by (apply (nth_error_upd_same _ _ _ _ Hn)).
-    cbn [ph cip cvia hj reg closed resp]. unfold close_conn. cbn [reg cip cvia ph hj resp closed].
+    cbn [ph cip cvia hj reg closed resp]. unfold close_conn. cbn [reg cip cvia ph hj resp closed]. replace (if e then unregister (perip s) ip0 else unregister (perip s) ip0) with (unregister (perip s) ip0) by (destruct e; reflexivity).
     split; [reflexivity|]. cbn [conns concurrency open perip].
     split; [eapply nth_error_upd_same; eapply nth_error_upd_same; apply (nth_error_upd_same _ _ _ _ Hn)|].
     split; [repeat split|]. split; [lia|]. split; [reflexivity|]. intros ip. rewrite (unreg_spec cf s ip0 ip I). cbn [andb].
@@ -191,7 +191,7 @@ Proof.
   - eexists _, _, _, _. split; [reflexivity|]. cbn [step conns]. unfold set_ph. rewrite (nth_error_upd_same _ _ _ _ Hn). cbn [ph cip cvia hj reg closed resp].
     split; [reflexivity|]. cbn [step conns concurrency open perip loops serving].
     rewrite (nth_error_upd_same _ c _ (mkC VConn ip0 false cl PConcOver h rs)) by (apply (nth_error_upd_same _ _ _ _ Hn)).
-    cbn [ph cip cvia hj reg closed resp]. unfold close_conn. cbn [reg cip cvia ph hj resp closed].
+    cbn [ph cip cvia hj reg closed resp]. unfold close_conn. cbn [reg cip cvia ph hj resp closed]. replace (if e then unregister (perip s) ip0 else unregister (perip s) ip0) with (unregister (perip s) ip0) by (destruct e; reflexivity).
     split; [reflexivity|]. cbn [conns concurrency open perip].
     split; [eapply nth_error_upd_same; eapply nth_error_upd_same; apply (nth_error_upd_same _ _ _ _ Hn)|].
     split; [repeat split|]. split; [lia|]. split; reflexivity.
@@ -199,15 +199,15 @@ Qed.
 
 (* Concurrency through Serve: all workers of the loop's pool are busy *)
 Lemma reject_conc_serve cf s c r k lp : reach cf s -> nth_error (conns s) c = Some r -> ph r = POpened -> cvia r = VServe k ->
-  nth_error (loops s) k = Some lp -> ready lp <= 0 -> effConc cf <= wcount lp ->
+  nth_error (loops s) k = Some lp -> ready lp <= 0 -> effConc cf <= wcount lp -> forall e,
   step cf s (LGetChOk c) = None /\
   exists s1 s2 s3 r3, step cf s (LGetChFail c) = Some s1 /\ step cf s1 (LRejectDec c) = Some s2 /\
-    step cf s2 (LRejectConc c) = Some s3 /\
+    step cf s2 (LRejectConc c e) = Some s3 /\
     nth_error (conns s3) c = Some r3 /\ rejected_with StatusServiceUnavailable r3 /\
     concurrency s3 = concurrency s /\ open s3 = open s - 1 /\
     (forall ip, perip s3 ip = if reg r && N.eqb ip (cip r) then norm (sumf (w_ip ip) (conns s) - 1) else perip s ip).
 Proof.
-  intros R Hn Hp Hv Hk Hr Hw. pose proof (inv_reach _ _ R) as I.
+  intros R Hn Hp Hv Hk Hr Hw e. pose proof (inv_reach _ _ R) as I.
   destruct r as [v ip0 rg cl p h rs]. cbn in Hp, Hv. subst p v.
   assert (E1 : (0 <? ready lp) = false) by lia. assert (E2 : (wcount lp <? effConc cf) = false) by lia.
   split; [cbn [step]; rewrite Hn; cbn [ph cvia]; rewrite Hk, E1, E2; reflexivity|].
@@ -217,7 +217,7 @@ Proof.
     rewrite (nth_error_upd_same _ _ _ _ Hn). cbn [ph cip cvia hj reg closed resp].
     split; [reflexivity|]. cbn [step conns concurrency open perip loops serving].
     rewrite (nth_error_upd_same _ c _ (mkC (VServe k) ip0 true cl PNoWorker h rs)) by (apply (nth_error_upd_same _ _ _ _ Hn)).
-    cbn [ph cip cvia hj reg closed resp]. unfold close_conn. cbn [reg cip cvia ph hj resp closed].
+    cbn [ph cip cvia hj reg closed resp]. unfold close_conn. cbn [reg cip cvia ph hj resp closed]. replace (if e then unregister (perip s) ip0 else unregister (perip s) ip0) with (unregister (perip s) ip0) by (destruct e; reflexivity).
     split; [reflexivity|]. cbn [conns concurrency open perip].
     split; [eapply nth_error_upd_same; eapply nth_error_upd_same; apply (nth_error_upd_same _ _ _ _ Hn)|].
     split; [repeat split|]. split; [lia|]. split; [reflexivity|]. intros ip. rewrite (unreg_spec cf s ip0 ip I). cbn [andb].
@@ -226,7 +226,7 @@ Proof.
     rewrite (nth_error_upd_same _ _ _ _ Hn). cbn [ph cip cvia hj reg closed resp].
     split; [reflexivity|]. cbn [step conns concurrency open perip loops serving].
     rewrite (nth_error_upd_same _ c _ (mkC (VServe k) ip0 false cl PNoWorker h rs)) by (apply (nth_error_upd_same _ _ _ _ Hn)).
-    cbn [ph cip cvia hj reg closed resp]. unfold close_conn. cbn [reg cip cvia ph hj resp closed].
+    cbn [ph cip cvia hj reg closed resp]. unfold close_conn. cbn [reg cip cvia ph hj resp closed]. replace (if e then unregister (perip s) ip0 else unregister (perip s) ip0) with (unregister (perip s) ip0) by (destruct e; reflexivity).
     split; [reflexivity|]. cbn [conns concurrency open perip].
     split; [eapply nth_error_upd_same; eapply nth_error_upd_same; apply (nth_error_upd_same _ _ _ _ Hn)|].
     split; [repeat split|]. split; [lia|]. split; reflexivity.
@@ -280,10 +280,10 @@ Qed.
 
 (* a further Close on a connection that has been closed changes nothing *)
 Lemma close_idempotent cf s c r s' : nth_error (conns s) c = Some r -> closed r = true -> reg r = false ->
-  step cf s (LUserClose c) = Some s' ->
+  forall e, step cf s (LUserClose c e) = Some s' ->
   concurrency s' = concurrency s /\ open s' = open s /\ perip s' = perip s /\ conns s' = conns s /\ loops s' = loops s.
 Proof.
-  intros Hn Hc Hr Hs. cbn [step] in Hs. rewrite Hn in Hs. destruct r as [v ip0 rg cl p h rs]. cbn in Hc, Hr. subst rg cl.
+  intros Hn Hc Hr e Hs. cbn [step] in Hs. rewrite Hn in Hs. destruct r as [v ip0 rg cl p h rs]. cbn in Hc, Hr. subst rg cl.
   unfold close_conn in Hs. cbn [ph reg cvia cip hj resp] in Hs.
   assert (Hu : upd (conns s) c (mkC v ip0 false true p h rs) = conns s).
   { clear Hs. revert c Hn. induction (conns s) as [|x l IH]; intros [|c] Hn; cbn in *; try discriminate; [congruence|]. f_equal. auto. }
@@ -314,3 +314,29 @@ Proof. exact (perip_bound cf s). Qed.
 Lemma balance' cf s : reach cf s -> all_terminal s = true ->
   concurrency s = 0 /\ open s = 0 /\ perip_empty s /\ serving s = n_running s.
 Proof. exact (balance cf s). Qed.
+
+(* ---- the outcome of the underlying Close ------------------------------------------------------------------------ *)
+(* whether the underlying net.Conn.Close fails or not makes no difference to any counter: the per-IP unit is given back either way *)
+Lemma close_conn_outcome m r : close_conn m r true = close_conn m r false.
+Proof. unfold close_conn. destruct (reg r); reflexivity. Qed.
+
+Lemma close_outcome_irrelevant cf s c :
+  step cf s (LRejectConc c true) = step cf s (LRejectConc c false) /\
+  step cf s (LCloseAfter c true) = step cf s (LCloseAfter c false) /\
+  step cf s (LHijackDone c true) = step cf s (LHijackDone c false) /\
+  step cf s (LUserClose c true) = step cf s (LUserClose c false).
+Proof.
+  repeat split; cbn [step]; destruct (nth_error (conns s) c) as [r|]; try reflexivity; rewrite (close_conn_outcome (perip s) r); reflexivity.
+Qed.
+
+(* a registered connection whose first Close fails has given its unit back all the same *)
+Lemma failed_close_unregisters cf s c r s' : reach cf s -> nth_error (conns s) c = Some r -> reg r = true ->
+  step cf s (LUserClose c true) = Some s' ->
+  perip s' (cip r) = norm (sumf (w_ip (cip r)) (conns s) - 1) /\
+  exists r', nth_error (conns s') c = Some r' /\ reg r' = false /\ closed r' = true.
+Proof.
+  intros R Hn Hr Hs. pose proof (inv_reach _ _ R) as I. cbn [step] in Hs. rewrite Hn in Hs.
+  destruct r as [v ip0 rg cl p h rs]. cbn in Hr. subst rg. unfold close_conn in Hs. cbn [ph reg cvia cip hj resp closed] in Hs.
+  destruct p; try discriminate Hs; injection Hs as <-; cbn [perip conns cip];
+    (split; [rewrite (unreg_spec cf s ip0 ip0 I), N.eqb_refl; reflexivity|eexists; split; [eapply nth_error_upd_same; eauto|split; reflexivity]]).
+Qed.
